@@ -14,7 +14,7 @@ pub fn prop() -> Prop {
     Prop {
         id: "C15",
         level: "exploration",
-        rule: "through the public constructors and accessors, in BOTH build profiles (release-like and debug-assertion/overflow-check): every integer of the boundary lattice (round trip, tag, immediacy); both booleans and null; all 81 (entry offset, local count) pairs from two 9-value boundary sets; 112 float bit patterns (sign x 7 exponents x 4 mantissas, compared by bits); all strings of <= 3 characters over {a, é, 😀, NUL}; strings and integer arrays of every length around each power of two up to 65 537; all arrays of depth <= 2 and width <= 2 over four element values; alignment of every heap box; strings and arrays changed in place through the mutable accessors (7 edits x every small string: equal to a fresh value of the new content, different from the old); and the complete 200 x 200 cross product of a fixed 200-value set: == holds iff same type and same content (NaN excepted) and never panics for scalars, text and functions. A case = one value or one pair; all are non-trivial; distinct = distinct case descriptions",
+        rule: "through the public constructors and accessors, in BOTH build profiles (release-like and debug-assertion/overflow-check): every integer of the boundary lattice (round trip, tag, immediacy); both booleans and null; all 81 (entry offset, local count) pairs from two 9-value boundary sets; 112 float bit patterns (sign x 7 exponents x 4 mantissas, compared by bits); all strings of <= 3 characters over {a, é, 😀, NUL}; strings and integer arrays of every length around each power of two up to 65 537; all arrays of depth <= 2 and width <= 2 over four element values; alignment of every heap box; strings of 7..65 bytes against a copy and against a copy with one byte changed at every position; strings and arrays changed in place through the mutable accessors (7 edits x every small string: equal to a fresh value of the new content, different from the old); and the complete 200 x 200 cross product of a fixed 200-value set: == holds iff same type and same content (NaN excepted) and never panics for scalars, text and functions. A case = one value or one pair; all are non-trivial; distinct = distinct case descriptions",
         assumptions: &["heap values are created through a GC obtained from the facade re-export (verif::GC)", "array == array is outside the property (scalars, text and functions only)"],
         run,
         replay,
@@ -288,6 +288,28 @@ fn run(sh: &mut Shard) {
                 matches!(&r, Ok((true, true, true, false, eq_old, Type::String)) if *eq_old == same_as_old),
                 || format!("(content, == fresh, fresh ==, != fresh, == old, tag) = {r:?}; the new content is {expected:?}"),
             );
+        }
+    }
+    // longer strings (around the machine-word sizes): equal copies are equal, a change of ONE character at any
+    // position makes them different
+    for len in [7usize, 8, 9, 15, 16, 17, 18, 20, 23, 24, 25, 31, 32, 33, 40, 47, 48, 49, 64, 65] {
+        let base: String = (0..len).map(|i| (b'a' + (i % 26) as u8) as char).collect();
+        let r = guarded(|| {
+            let a = Object::string(base.as_str(), &mut gc);
+            let b = Object::string(base.as_str(), &mut gc);
+            (a == b, a != b)
+        });
+        check(sh, format!("two copies of a string of {len} bytes"), matches!(r, Ok((true, false))), || format!("{r:?}"));
+        for p in 0..len {
+            let mut other: Vec<u8> = base.clone().into_bytes();
+            other[p] = b'Z';
+            let other = String::from_utf8(other).unwrap();
+            let r = guarded(|| {
+                let a = Object::string(base.as_str(), &mut gc);
+                let b = Object::string(other.as_str(), &mut gc);
+                (a == b, a != b, b == a)
+            });
+            check(sh, format!("strings of {len} bytes differing at byte {p}"), matches!(r, Ok((false, true, false))), || format!("{r:?}"));
         }
     }
     for len in 0..4usize {
